@@ -64,7 +64,7 @@ func init() {
 	addMutants(
 		// D67-D73 reverted (C01 wiring repairs of the fifth round)
 		mutant{Name: "only-the-first-case-expression-wired", Prop: "C01", File: "interp/cfg.go", Old: "\t\t\t\t\tc.start = body.start\n\t\t\t\t\tfor j, e := range c.child[:len(c.child)-1] {\n\t\t\t\t\t\tif j == 0 {\n\t\t\t\t\t\t\tc.start = e.start\n\t\t\t\t\t\t} else {\n\t\t\t\t\t\t\tc.child[j-1].tnext = e.start\n\t\t\t\t\t\t}\n\t\t\t\t\t\te.tnext = c\n\t\t\t\t\t}\n", New: "\t\t\t\t\tc.child[0].tnext = c\n\t\t\t\t\tc.start = c.child[0].start\n", Rule: "R01.23", Key: "cfg/case:switchStmt/every-case-expression-wired"},
-		mutant{Name: "empty-switch-skips-its-header", Prop: "C01", File: "interp/cfg.go", Old: "\t\t\t\t// Switch is empty: its init statement and tag are still evaluated.\n\t\t\t\tn.start = n.child[0].start\n\t\t\t\tn.child[0].tnext = n\n\t\t\t\tbreak\n\t\t\t}\n\t\t\t// Chain case clauses.", New: "\t\t\t\tbreak\n\t\t\t}\n\t\t\t// Chain case clauses.", Rule: "R01.24", Key: "cfg/case:switchStmt/empty-switch-evaluates-its-header"},
+		mutant{Name: "empty-switch-skips-its-header", Prop: "C01", File: "interp/cfg.go", Old: "\t\t\t\t// Switch is empty: its init statement and tag are still evaluated.\n\t\t\t\tn.start = n.child[0].start\n\t\t\t\tif n.kind == typeSwitch {\n\t\t\t\t\tn.child[0].tnext = n\n\t\t\t\t} else {\n\t\t\t\t\twireSwitchHeader(n, n)\n\t\t\t\t}\n\t\t\t\tbreak\n\t\t\t}\n\t\t\t// Chain case clauses.", New: "\t\t\t\tbreak\n\t\t\t}\n\t\t\t// Chain case clauses.", Rule: "R01.24", Key: "cfg/case:switchStmt/empty-switch-evaluates-its-header"},
 		mutant{Name: "dereferenced-condition-stored-on-the-true-branch-only", Prop: "C01", File: "interp/run.go", Old: "\t\t\tr := value(f).Elem()\n\t\t\tgetFrame(f, l).data[i] = r\n\t\t\tif r.Bool() {\n\t\t\t\treturn tnext\n\t\t\t}\n", New: "\t\t\tr := value(f).Elem()\n\t\t\tif r.Bool() {\n\t\t\t\tgetFrame(f, l).data[i] = r\n\t\t\t\treturn tnext\n\t\t\t}\n", Rule: "R01.19", Key: "deref/branching-closure#1/stores-its-value-on-every-path"},
 		mutant{Name: "range-over-pointer-without-hidden-slot", Prop: "C01", File: "interp/cfg.go", Old: "\t\t\t\t\tcase ptrT:\n\t\t\t\t\t\tsc.add(sc.getType(\"int\")) // Add a dummy type to store array shallow copy for range\n", New: "\t\t\t\t\tcase ptrT:\n", Rule: "R01.25", Key: "cfg/range/case:ptrT/hidden-slot-allocated"},
 		mutant{Name: "loop-variable-redeclaration-dropped", Prop: "C01", File: "interp/cfg.go", Old: "\t\t\t\t\t\t\tif fi != nil && dest.ident == fi.ident {\n\t\t\t\t\t\t\t\t// A new variable, which shadows the per-iteration copy of the loop variable.\n", New: "\t\t\t\t\t\t\tif fi != nil && dest.ident == fi.ident {\n\t\t\t\t\t\t\t\tif src.kind == identExpr && src.ident == dest.ident {\n\t\t\t\t\t\t\t\t\tn.gen = nop\n\t\t\t\t\t\t\t\t\tbreak\n\t\t\t\t\t\t\t\t}\n\t\t\t\t\t\t\t\t// A new variable, which shadows the per-iteration copy of the loop variable.\n", Rule: "R01.11", Key: "redeclaration-creates-a-variable"},
